@@ -18,6 +18,7 @@ TECHNIQUE = ("finite-exhaustive: the receive automaton evaluated on every (state
 RULE_KINDS = {
     "constants/": "structural",
     "writer/single-bytes": "finite-exhaustive",
+    "writer/iac-doubled-on-every-path": "structural",
     "writer/": "bounded",
     "writeSequence/through-write": "structural",
     "writeSequence/iterable-consumed-once": "structural",
@@ -99,6 +100,10 @@ class _WInterp(MiniInterp):
         MiniInterp.__init__(self, func, {}, {}, consts)
         self.mod, self.dyn_cls, self.sinks, self.used = mod, dyn_cls, sinks, used
 
+    def class_attr(self, name):
+        # the writer model keeps no instance state: a condition on it is outside the model (explored both ways when it guards a branch)
+        raise AnalysisError(f"model: instance attribute self.{name} is outside the writer model")
+
     def ev(self, n):
         if isinstance(n, ast.Call) and not n.keywords:
             d = call_name(n)
@@ -146,6 +151,98 @@ def eval_method(mod, lookup_cls, dyn_cls, name, args, consts, sinks, used, depth
         raise AnalysisError("C38: method evaluation too deep")
     used.add(f"{owner.name}.{name}")
     return _WInterp(f, mod, dyn_cls, consts, sinks, used).call(*args)
+
+
+def iac_bypass(ctx, mod, cls, mname, C, escaped_params=False, seen=None):
+    """None when every call in method ``mname`` (resolved on ``cls``) that hands its data parameter on - to the underlying transport or to another
+    writer of the class hierarchy - passes data that went through ``.replace(IAC, IAC IAC)`` on every path (or hands it to a writer that does so on
+    every one of its paths).  Otherwise a description of the first bypass.  Unrecognisable forwarding raises AnalysisError (the caller abstains)."""
+    from sa.props._lib_h import reaching_defs, assigned_pairs
+    seen = seen if seen is not None else set()
+    r = mro_lookup(mod, cls, mname)
+    if r is None or not isinstance(r[1], ast.FunctionDef) or len(r[1].args.args) < 2:
+        raise AnalysisError(f"C38: writer {mname} not resolvable")
+    owner, f = r
+    if (id(f), escaped_params) in seen:
+        return None
+    seen.add((id(f), escaped_params))
+    dparam = f.args.args[-1].arg
+    g = ctx.cfg(f)
+    iac = C.get("IAC")
+
+    def const(e):
+        try:
+            return const_eval(e, dict(C))
+        except NotConst:
+            return None
+
+    def escaped(e, node, depth=0):
+        """the value of e at CFG node `node` has had every IAC doubled"""
+        if depth > 6:
+            return False
+        if isinstance(e, ast.Call) and isinstance(e.func, ast.Attribute) and e.func.attr == "replace" and len(e.args) == 2:
+            if const(e.args[0]) == iac and const(e.args[1]) == iac * 2:
+                return True
+            pat, rep = const(e.args[0]), const(e.args[1])
+            if isinstance(pat, bytes) and isinstance(rep, bytes) and iac not in pat and iac not in rep:
+                return escaped(e.func.value, node, depth + 1)      # a rewrite that neither removes nor introduces IACs
+            return False
+        if isinstance(e, ast.Call) and isinstance(e.func, ast.Attribute) and e.func.attr == "join" and len(e.args) == 1:
+            return escaped(e.args[0], node, depth + 1)
+        if isinstance(e, ast.Name):
+            if e.id == dparam and not any(isinstance(x, ast.Name) and x.id == dparam and isinstance(x.ctx, ast.Store) for x in ast.walk(f)):
+                return escaped_params
+            rds = reaching_defs(g, e.id, node)
+            if not rds:
+                return escaped_params if e.id == dparam else False
+            ok = True
+            for d_ in rds:
+                st = g.node(d_).ast
+                vals = [v for t, v in assigned_pairs(st) if isinstance(t, ast.Name) and t.id == e.id] if isinstance(st, ast.Assign) else []
+                ok = ok and len(vals) == 1 and vals[0] is not None and escaped(vals[0], d_, depth + 1)
+            if e.id == dparam and edge_path(g, [g.entry], [node], avoid_nodes=rds) is not None:
+                # the unmodified parameter also reaches this point.  When the branch tests look at the data itself ("escape only if an IAC is present")
+                # the unescaped path may be the one without IACs: that is a question about values, left to the evaluated layer
+                if not escaped_params and any(isinstance(x, ast.Name) and x.id == dparam for t_ in g.ids(lambda n_: n_.kind == "test") for x in ast.walk(g.node(t_).ast)):
+                    raise AnalysisError(f"C38: {owner.name}.{mname}: whether the data is escaped depends on a test of the data itself")
+                ok = ok and escaped_params
+            return ok
+        return False
+
+    def carries(e):
+        names = {dparam} | {t.id for st in ast.walk(f) if isinstance(st, ast.Assign) for t in st.targets if isinstance(t, ast.Name)
+                            and any(isinstance(x, ast.Name) and x.id == dparam for x in ast.walk(st.value))}
+        return any(isinstance(x, ast.Name) and x.id in names for x in ast.walk(e))
+    for n in g.ids(lambda n: n.ast is not None and n.kind in ("stmt", "test")):
+        for c in [x for x in ast.walk(g.node(n).ast) if isinstance(x, ast.Call)]:
+            fn = src(c.func)
+            args = [a for a in c.args if carries(a)]
+            if not args:
+                continue
+            if isinstance(c.func, ast.Attribute) and c.func.attr in ("replace", "join", "encode", "startswith", "find", "count") or fn in ("len", "bytes", "isinstance", "iter", "list", "tuple"):
+                continue        # reads / rewrites, not forwarding
+            where = f"{owner.name}.{mname}: `{src(c)[:70]}`"
+            if fn in ("self.transport.write", "self.transport.writeSequence"):
+                if not all(escaped(a, n) for a in args):
+                    return where
+            elif fn.startswith("self.") and fn.count(".") == 1 and len(c.args) == 1:
+                if not escaped(c.args[0], n):
+                    b_ = iac_bypass(ctx, mod, cls, fn[5:], C, False, seen)
+                    if b_ is not None:
+                        return b_ if b_.startswith(fn[5:]) else f"{where} -> {b_}"
+                else:
+                    b_ = iac_bypass(ctx, mod, cls, fn[5:], C, True, seen)
+                    if b_ is not None:
+                        return b_
+            elif isinstance(c.func, ast.Attribute) and isinstance(c.func.value, ast.Name) and len(c.args) == 2 and src(c.args[0]) == "self" \
+                    and any(k.name == c.func.value.id for k in mod.classes()):
+                base = next(k for k in mod.classes() if k.name == c.func.value.id)
+                b_ = iac_bypass(ctx, mod, base, c.func.attr, C, escaped(c.args[1], n), seen)
+                if b_ is not None:
+                    return b_
+            else:
+                raise AnalysisError(f"C38: {where}: the data is handed to something that is not a known writer")
+    return None
 
 
 def bytewise_chain(mod, cls, mname, C, seen=None):
@@ -326,6 +423,42 @@ class Reader:
         self.depth = 0
         self.passed = set()
 
+    def decode(self, chunks, agrees):
+        """feed the chunks after a reset -> error text or None.  Conditions outside the model (a negotiated option ...) are fixed per run by an oracle; when
+        the first run does not satisfy ``agrees(self, err)`` the other assignments are tried and the reader is left in the state of the first run that does
+        (the code has a mode in which it decodes as RFC 854 prescribes), else of the first run."""
+        from sa.props._lib_h import Oracle
+
+        def one(asg):
+            self.reset()
+            o = Oracle(asg)
+            self.consts["__oracle__"] = o
+            err = None
+            try:
+                for ch in chunks:
+                    self.feed(ch)
+            except ModelRaise as e:
+                err = str(e)
+            return o, err
+        o, err = one({})
+        if agrees(self, err) or not o.opened:
+            return err
+        pending = []
+        for i, k in enumerate(o.opened):
+            pending.append({**{k2: True for k2 in o.opened[:i]}, k: False})
+        tried = 0
+        while pending and tried < 6:
+            a = pending.pop()
+            tried += 1
+            o2, err2 = one(a)
+            if agrees(self, err2):
+                self.modes = getattr(self, "modes", set()) | {tuple(sorted(o2.assignment.items()))}
+                return err2
+            for i, k in enumerate(o2.opened):
+                pending.append({**a, **{k2: True for k2 in o2.opened[:i]}, k: False})
+        o, err = one({})
+        return err
+
     def feed(self, chunk: bytes):
         it = _RInterp(self.func, self)
         n0 = len(self.events)
@@ -484,23 +617,56 @@ def check(ctx):
         for x in (IACB, LFB):
             probes += [x + b"ab", b"a" + x + b"b", b"ab" + x, x + x + b"a", b"a" + x + x, x + b"a" + x, x * 3]
         probes += [IACB + LFB + b"a", LFB + IACB, b"a" + LFB + IACB + b"b"]
-        out = {d: wire(d) for d in probes}
+        from sa.props._lib_h import explore_unknowns
+
+        def wire_o(data, oracle):
+            sinks = []
+            eval_method(mod, tt, tt, "write", [data], {**C, "__oracle__": oracle}, sinks, used)
+            return b"".join(sinks)
+        # conditions the model cannot evaluate (a negotiated option, configuration ...) are explored both ways, one consistent assignment per run
+        runs = explore_unknowns(lambda o: {d: wire_o(d, o) for d in probes})
+        out = runs[0][1]
         for nm in sorted(used):
             ctx.functions.add(f"{TELNET}:{nm}")
-        ctx.note(f"write() evaluated on {len(probes)} inputs through {sorted(used)}")
-        bad_iac = [d for d in probes if IACB in d and out[d].count(IACB) != 2 * d.count(IACB)]
+        ctx.note(f"write() evaluated on {len(probes)} inputs through {sorted(used)}" +
+                 (f"; {len(runs)} assignments of conditions outside the model: {sorted(runs[-1][0])}" if len(runs) > 1 else ""))
+
+        def under(asg):
+            return (" (when " + ", ".join(f"`{k[:60]}` is {v}" for k, v in sorted(asg.items())) + ")") if asg else ""
+        # IAC doubling and leaving the other bytes alone are required under every assignment; the end-of-line translation may depend on a mode, but must
+        # be all-or-nothing within a mode and present in at least one
+        bad_iac = [(d, o_[d], asg) for asg, o_ in runs for d in probes if IACB in d and o_[d].count(IACB) != 2 * d.count(IACB)]
         ctx.check(not bad_iac, "writer/iac-doubled", qw + " | IAC",
-                  f"application byte 0xFF is not always sent as IAC IAC: write({bad_iac[0] if bad_iac else b''!r}) puts {out[bad_iac[0]] if bad_iac else b''!r} on the wire "
-                  "and the peer reads a telnet command")
-        bad_lf = [d for d in probes if LFB in d and out[d].replace(IACB * 2, IACB) != d.replace(LFB, CRB + LFB)]
-        ctx.check(not bad_lf, "writer/lf-to-crlf", qw + " | LF",
-                  f"LF is not always sent as CR LF: write({bad_lf[0] if bad_lf else b''!r}) -> {out[bad_lf[0]] if bad_lf else b''!r}")
-        others = [d for d in singles if d not in (IACB, LFB) and out[d] != d]
-        ctx.check(not others, "writer/other-bytes-untouched", qw + " | other bytes", f"write() rewrites bytes that need no escaping: {others[:3]!r}")
-        mism = [d for d in probes if out[d] != ideal(d)]
+                  f"application byte 0xFF is not always sent as IAC IAC: write({bad_iac[0][0] if bad_iac else b''!r}) puts {bad_iac[0][1] if bad_iac else b''!r} on the wire"
+                  f"{under(bad_iac[0][2]) if bad_iac else ''} and the peer reads a telnet command")
+        lf_modes = []
+        for asg, o_ in runs:
+            full = [d for d in probes if LFB in d and o_[d].replace(IACB * 2, IACB) == d.replace(LFB, CRB + LFB)]
+            none = [d for d in probes if LFB in d and o_[d].replace(IACB * 2, IACB) == d]
+            n_lf = sum(1 for d in probes if LFB in d)
+            lf_modes.append((asg, len(full) == n_lf, len(none) == n_lf and len(runs) > 1))
+        bad_lf = [(asg, next(d for d in probes if LFB in d and o_[d].replace(IACB * 2, IACB) != d.replace(LFB, CRB + LFB))) for (asg, o_), (_, f_, n_) in zip(runs, lf_modes) if not f_ and not n_]
+        ctx.check(not bad_lf and any(f_ for _, f_, _ in lf_modes), "writer/lf-to-crlf", qw + " | LF",
+                  f"LF is not always sent as CR LF: write({bad_lf[0][1] if bad_lf else LFB!r}) -> {next(o_ for a_, o_ in runs if a_ == bad_lf[0][0])[bad_lf[0][1]] if bad_lf else out[LFB]!r}"
+                  f"{under(bad_lf[0][0]) if bad_lf else ''}")
+        others = [(d, asg) for asg, o_ in runs for d in singles if d not in (IACB, LFB) and o_[d] != d]
+        ctx.check(not others, "writer/other-bytes-untouched", qw + " | other bytes",
+                  f"write() rewrites bytes that need no escaping: {[d for d, _ in others[:3]]!r}{under(others[0][1]) if others else ''}")
+
+        def ideal_for(i):
+            return ideal if lf_modes[i][1] or not lf_modes[i][2] else (lambda d: d.replace(IACB, IACB * 2))
+        mism = [(d, o_[d], ideal_for(i)(d), asg) for i, (asg, o_) in enumerate(runs) for d in probes if o_[d] != ideal_for(i)(d)]
         ctx.check(not mism, "writer/matches-ideal-escaper", qw + " | all probes",
-                  f"write({mism[0] if mism else b''!r}) -> {out[mism[0]] if mism else b''!r} differs from IAC-doubling + LF->CRLF ({ideal(mism[0]) if mism else b''!r})",
-                  detail=f"{len(probes)} inputs")
+                  f"write({mism[0][0] if mism else b''!r}) -> {mism[0][1] if mism else b''!r} differs from IAC-doubling + LF->CRLF ({mism[0][2] if mism else b''!r})"
+                  f"{under(mism[0][3]) if mism else ''}", detail=f"{len(probes)} inputs x {len(runs)} assignment(s)")
+        # structural: on EVERY path from the entry of write() to a write on the underlying transport the data has passed the IAC-doubling rewrite,
+        # whatever the branch conditions are; only the end-of-line translation may be conditional
+        from sa.props._lib_h import abstain as _abstain
+        with _abstain(ctx, "writer/iac-doubled-on-every-path", "writer/iac-doubled (bounded, unknown conditions explored both ways)"):
+            bypass = iac_bypass(ctx, mod, tt, "write", C)
+            ctx.check(bypass is None, "writer/iac-doubled-on-every-path", qw + " | <every path to the transport>",
+                      f"{bypass} hands the data to the transport without the IAC-doubling rewrite on that path: whatever its guard (binary mode, fast path ...), an "
+                      "application byte 0xFF then reaches the peer as the start of a telnet command (RFC 854; RFC 856 keeps IAC doubling in binary mode)")
         ctx.floor("writer/matches-ideal-escaper", len(probes), 300, "probe inputs")
         why = bytewise_chain(mod, tt, "write", C)
         if why is None:
@@ -525,15 +691,21 @@ def check(ctx):
         n_ws = 0
         for sq in seqs:
             for fname_, mk in forms:
-                sinks = []
                 n_ws += 1
-                try:
-                    eval_method(mod, tt, tt, "writeSequence", [mk(sq)], C, sinks, set())
-                    got = b"".join(sinks)
-                except ModelError as e:
-                    got = f"<raises {e}>".encode()
-                if got != ideal(b"".join(sq)) and bad is None:
-                    bad = (sq, got, fname_)
+
+                def ws_run(o, sq=sq, mk=mk):
+                    sinks = []
+                    try:
+                        eval_method(mod, tt, tt, "writeSequence", [mk(sq)], {**C, "__oracle__": o}, sinks, set())
+                        return b"".join(sinks)
+                    except ModelError as e:
+                        return f"<raises {e}>".encode()
+                ws_runs = explore_unknowns(ws_run)
+                joined = b"".join(sq)
+                for asg_, got in ws_runs:
+                    # IAC doubling under every assignment of conditions outside the model; the end-of-line translation may depend on a mode
+                    if got != ideal(joined) and not (len(ws_runs) > 1 and got == joined.replace(IACB, IACB * 2)) and bad is None:
+                        bad = (sq, got, fname_ + under(asg_))
         ctx.check(bad is None, "writeSequence/same-escaping-as-write", qs,
                   f"writeSequence({bad[0] if bad else []!r}) given as a {bad[2] if bad else ''} puts {bad[1] if bad else b''!r} on the wire; write() of the concatenation would send "
                   f"{ideal(b''.join(bad[0])) if bad else b''!r} (IAC doubled, LF -> CR LF): the sequence bypasses the escaping or gains/loses bytes",
@@ -794,13 +966,7 @@ def check(ctx):
             n_wires += 1
             for sname, chunks in segmentations(wire):
                 n_runs += 1
-                rd.reset()
-                err = None
-                try:
-                    for ch in chunks:
-                        rd.feed(ch)
-                except ModelRaise as e:
-                    err = str(e)
+                err = rd.decode(chunks, lambda r_, e_: e_ is None and coalesce(r_.events) == want_ev and r_.state == want_state and not r_.unflushed)
                 got = coalesce(rd.events)
                 if err is None and got == want_ev and rd.state == want_state and not rd.unflushed:
                     continue
@@ -878,13 +1044,8 @@ def check(ctx):
                     for chunks in (cuts if ctx.tier == "thorough" else cuts[:2]):
                         chunks = [c_ for c_ in chunks if c_]
                         n_eval += 1
-                        rdt.reset()
-                        err = None
-                        try:
-                            for ch in chunks:
-                                rdt.feed(ch)
-                        except ModelRaise as e:
-                            err = str(e)
+                        err = rdt.decode(chunks, lambda r_, e_: e_ is None and r_.state == want[1]
+                                         and coalesce(r_.events + ([("app", r_.unflushed)] if r_.unflushed else [])) == want[0])
                         got = coalesce(rdt.events + ([("app", rdt.unflushed)] if rdt.unflushed and err is None else []))
                         if (err is not None or got != want[0] or rdt.state != want[1]) and bad_t is None:
                             bad_t = (st_name, b_, wire, chunks, got, rdt.state, err, want)
@@ -1048,6 +1209,12 @@ MUTANTS = [
            more=[(T, 'import struct\n', 'import re\nimport struct\n'), (T, 'class Telnet(protocol.Protocol):\n', '_commandStart = re.compile(rb"\\xff[^\\xff]|\\r")\n\n\nclass Telnet(protocol.Protocol):\n')]),
     Mutant("state-read-once-per-chunk-into-a-local", T, '        for b in iterbytes(data):\n            if self.state == "data":\n                if b == IAC:',
            '        current = self.state\n        for b in iterbytes(data):\n            if current == "data":\n                if b == IAC:', expect_rule="reader/"),
+    # a mode switch in write(): a branch that reaches the transport without the IAC rewrite is a violation whatever its guard; only the end-of-line
+    # translation may depend on a mode
+    Mutant("raw-output-mode-bypasses-iac-doubling", T, '        ProtocolTransportMixin.write(self, data.replace(b"\\xff", b"\\xff\\xff"))',
+           '        if self.protocol is not None and getattr(self.protocol, "rawOutput", False):\n            self.transport.write(data)\n            return\n        ProtocolTransportMixin.write(self, data.replace(b"\\xff", b"\\xff\\xff"))', expect_rule="writer/iac-doubled-on-every-path"),
+    Mutant("raw-output-mode-bypasses-iac-doubling-evaluated", T, '        ProtocolTransportMixin.write(self, data.replace(b"\\xff", b"\\xff\\xff"))',
+           '        if self.protocol is not None and getattr(self.protocol, "rawOutput", False):\n            self.transport.write(data)\n            return\n        ProtocolTransportMixin.write(self, data.replace(b"\\xff", b"\\xff\\xff"))', expect_rule="writer/iac-doubled"),
 ]
 SILENT = [
     Silent("flush-moved-into-private-helper", T, "                command = self.command\n                del self.command\n                if appDataBuffer:\n                    self.applicationDataReceived(b\"\".join(appDataBuffer))\n                    del appDataBuffer[:]\n                self.commandReceived(command, b)\n",
@@ -1079,4 +1246,6 @@ SILENT = [
            more=[(T, 'import struct\n', 'import re\nimport struct\n'), (T, 'class Telnet(protocol.Protocol):\n', '_plainChunk = re.compile(rb"(?:[^\\xff\\r]|\\xff\\xff)*\\Z")\n\n\nclass Telnet(protocol.Protocol):\n')]),
     Silent("state-read-once-per-byte-into-a-local", T, '        for b in iterbytes(data):\n            if self.state == "data":\n                if b == IAC:',
            '        for b in iterbytes(data):\n            current = self.state\n            if current == "data":\n                if b == IAC:'),
+    Silent("mode-switch-only-for-the-newline-translation", T, '        ProtocolTransportMixin.write(self, data.replace(b"\\xff", b"\\xff\\xff"))',
+           '        doubled = data.replace(b"\\xff", b"\\xff\\xff")\n        if self.protocol is not None and getattr(self.protocol, "rawNewlines", False):\n            self.transport.write(doubled)\n            return\n        ProtocolTransportMixin.write(self, doubled)'),
 ]
